@@ -209,6 +209,75 @@ class Obj:
         return f"<{getattr(self.cls, 'name', self.cls)} {self.fields}>"
 
 
+class AbsGen:
+    """a generator function being interpreted: its body runs in a thread of its
+    own that is parked at every `yield` until the consumer asks for the next
+    value, so that laziness (what has and has not been evaluated when the
+    consumer stops) is the program's, not the interpreter's"""
+
+    def __init__(self, interp, fn, env):
+        import queue
+        import threading
+        self.interp, self.fn, self.env = interp, fn, env
+        self.out = queue.Queue(maxsize=1)
+        self.go = threading.Event()
+        self.done = False
+        self.thread = None
+        self._threading = threading
+
+    def _run(self):
+        tl = self.interp._tl
+        tl.gen = self
+        try:
+            self.go.wait()
+            self.go.clear()
+            if self.done:
+                return
+            try:
+                self.interp.block(self.fn.body, self.env)
+            except _Return:
+                pass
+            self.out.put(("stop", None))
+        except BaseException as e:        # noqa: B036 -- handed to the consumer
+            self.out.put(("raise", e))
+
+    def emit(self, value):
+        self.out.put(("value", value))
+        self.go.wait()
+        self.go.clear()
+        if self.done:
+            raise _GenClosed()
+
+    def __iter__(self):
+        return self
+
+    def __next__(self):
+        if self.done:
+            raise StopIteration
+        if self.thread is None:
+            self.thread = self._threading.Thread(target=self._run, daemon=True)
+            self.thread.start()
+        self.go.set()
+        kind, v = self.out.get()
+        if kind == "value":
+            return v
+        self.done = True
+        if kind == "raise":
+            if isinstance(v, _GenClosed):
+                raise StopIteration
+            raise v
+        raise StopIteration
+
+    def close(self):
+        if self.thread is not None and not self.done:
+            self.done = True
+            self.go.set()
+
+
+class _GenClosed(BaseException):
+    pass
+
+
 class Native:
     """abstract values that implement Python's operators themselves (vectors of
     Polys): the interpreter applies the operator to them directly"""
@@ -237,10 +306,38 @@ class _Continue(Exception):
 
 
 class Raised(Exception):
-    """the interpreted code raised"""
+    """the interpreted code raised; `exc` names the exception class where the
+    interpreter knows it (failed look-ups), so that `except` clauses match as
+    Python's would"""
 
-    def __init__(self, node):
+    def __init__(self, node, exc=None):
         self.node = node
+        if exc is None:
+            if isinstance(node, ast.Attribute):
+                exc = "AttributeError"
+            elif isinstance(node, ast.Raise) and node.exc is not None:
+                e = node.exc.func if isinstance(node.exc, ast.Call) else node.exc
+                exc = ast.unparse(e).split(".")[-1]
+            elif isinstance(node, ast.Assert):
+                exc = "AssertionError"
+            elif isinstance(node, (ast.BinOp, ast.AugAssign)):
+                exc = "ZeroDivisionError"
+        self.exc = exc
+
+    def caught_by(self, handler):
+        if handler.type is None:
+            return True
+        names = [ast.unparse(t).split(".")[-1] for t in (
+            handler.type.elts if isinstance(handler.type, ast.Tuple)
+            else [handler.type])]
+        if any(n in ("Exception", "BaseException") for n in names):
+            return True
+        if self.exc is None:
+            return True         # unknown kind: assume the handler fits
+        fam = {"KeyError": {"KeyError", "LookupError"},
+               "IndexError": {"IndexError", "LookupError"},
+               "ZeroDivisionError": {"ZeroDivisionError", "ArithmeticError"}}
+        return bool(set(names) & fam.get(self.exc, {self.exc}))
 
 
 class CutLoop(Exception):
@@ -264,6 +361,8 @@ class Interp:
         self.on_inplace = on_inplace  # callable(interp, node, target value)
         self.steps = 0
         self.max_steps = max_steps
+        import threading
+        self._tl = threading.local()
         self.resolve = resolve        # callable(cls, name) -> ("func"|"prop", fn)
         self.globals = globals_ or {}  # module-level names for interpreted code
 
@@ -307,12 +406,23 @@ class Interp:
         env = dict(env or {})
         params = [a.arg for a in fn.args.args]
         defaults = fn.args.defaults
+        kwv = env.pop("__kwargs__", None) or {}
         for i, p in enumerate(params):
             if i < len(args):
                 env[p] = args[i]
+            elif p in kwv:
+                env[p] = kwv.pop(p)
             else:
-                d = defaults[i - (len(params) - len(defaults))]
-                env[p] = self.eval(d, env)
+                j = i - (len(params) - len(defaults))
+                if j < 0:
+                    raise AnalysisError(f"{fn.name}: argument {p} missing")
+                env[p] = self.eval(defaults[j], env)
+        if fn.args.vararg is not None:
+            env[fn.args.vararg.arg] = tuple(args[len(params):])
+        if fn.args.kwarg is not None:
+            env[fn.args.kwarg.arg] = dict(kwv)
+        if _is_generator_fn(fn):
+            return AbsGen(self, fn, env)
         try:
             self.block(fn.body, env)
         except _Return as r:
@@ -334,6 +444,8 @@ class Interp:
         if isinstance(v, Poly):
             if v.is_const():
                 return v.const_value() != 0
+        elif callable(v) and not isinstance(v, (Opaque, Obj, Poly, Mon)):
+            return True
         elif isinstance(v, Native):
             return bool(len(v))
         elif isinstance(v, Obj):
@@ -420,10 +532,12 @@ class Interp:
                 it = sorted(it, key=repr)      # a set of concrete keys
             if isinstance(it, dict):
                 it = list(it)
-            if not isinstance(it, (tuple, list, range)):
+            lazy = isinstance(it, AbsGen) or (hasattr(it, "__next__")
+                                              and not isinstance(it, Opaque))
+            if not lazy and not isinstance(it, (tuple, list, range)):
                 raise AnalysisError(f"loop over {it!r}")
             broke = False
-            for x in list(it):
+            for x in (it if lazy else list(it)):
                 self.assign(st.target, x, env)
                 try:
                     self.block(st.body, env)
@@ -437,10 +551,11 @@ class Interp:
         elif isinstance(st, ast.Try):
             try:
                 self.block(st.body, env)
-            except Raised:
-                if not st.handlers:
+            except Raised as r_:
+                hs = [h for h in st.handlers if r_.caught_by(h)]
+                if not hs:
                     raise
-                self.block(st.handlers[0].body, env)
+                self.block(hs[0].body, env)
             else:
                 self.block(st.orelse, env)
             finally:
@@ -629,13 +744,15 @@ class Interp:
                 try:
                     return base[idx]
                 except (KeyError, TypeError):
-                    raise Raised(e)
+                    raise Raised(e, "KeyError")
             if isinstance(base, (tuple, list, str, dict, Native)) and isinstance(
                     idx, (int, str)):
                 try:
                     return base[idx]
-                except (IndexError, KeyError):
-                    raise Raised(e)
+                except IndexError:
+                    raise Raised(e, "IndexError")
+                except KeyError:
+                    raise Raised(e, "KeyError")
             raise AnalysisError(f"subscript {ast.unparse(e)} of {base!r}")
         if isinstance(e, ast.Attribute):
             base = self.eval(e.value, env)
@@ -666,20 +783,41 @@ class Interp:
                     out.append(str(x))
             return "".join(out)
         if isinstance(e, (ast.ListComp, ast.GeneratorExp, ast.SetComp)):
-            out = []
-
             def gen(i, sub):
                 if i == len(e.generators):
-                    out.append(self.eval(e.elt, sub))
+                    yield self.eval(e.elt, sub)
                     return
                 g = e.generators[i]
-                for x in list(self.eval(g.iter, sub)):
+                src = self.eval(g.iter, sub)
+                if isinstance(src, (set, frozenset)):
+                    src = sorted(src, key=repr)
+                for x in (src if isinstance(src, AbsGen) or hasattr(
+                        src, "__next__") else list(src)):
                     s2 = dict(sub)
                     self.assign(g.target, x, s2)
                     if all(self.truth(c, self.eval(c, s2)) for c in g.ifs):
-                        gen(i + 1, s2)
-            gen(0, env)
-            return out
+                        yield from gen(i + 1, s2)
+            if isinstance(e, ast.GeneratorExp):
+                return gen(0, env)          # lazy, like Python's
+            out = list(gen(0, env))
+            return set(out) if isinstance(e, ast.SetComp) else out
+        if isinstance(e, ast.Yield):
+            g = getattr(self._tl, "gen", None)
+            if g is None:
+                raise AnalysisError("yield outside an interpreted generator")
+            g.emit(self.eval(e.value, env) if e.value is not None else None)
+            return None
+        if isinstance(e, ast.YieldFrom):
+            g = getattr(self._tl, "gen", None)
+            if g is None:
+                raise AnalysisError("yield from outside an interpreted generator")
+            for x in self.eval(e.value, env):
+                g.emit(x)
+            return None
+        if isinstance(e, ast.NamedExpr):
+            v = self.eval(e.value, env)
+            self.assign(e.target, v, env)
+            return v
         if isinstance(e, ast.DictComp):
             out = {}
             if len(e.generators) != 1:
@@ -743,7 +881,15 @@ class Interp:
     def call(self, e, env):
         fname = ast.unparse(e.func)
         args = self._elts(e.args, env)
-        kw = {k.arg: self.eval(k.value, env) for k in e.keywords if k.arg}
+        kw = {}
+        for k in e.keywords:
+            v = self.eval(k.value, env)
+            if k.arg:
+                kw[k.arg] = v
+            elif isinstance(v, dict):
+                kw.update(v)
+            else:
+                raise AnalysisError(f"** of {v!r}")
         if fname in self.calls:
             return self.calls[fname](self, e, args, kw)
         if isinstance(e.func, ast.Name) and isinstance(env.get(e.func.id),
@@ -818,6 +964,15 @@ class Interp:
                 self.globals.get(e.func.id), Closure):
             c = self.globals[e.func.id]
             return self.call_function(c.fn, args, c.env)
+        # a value that is itself a (rule-supplied) callable
+        try:
+            fv = self.eval(e.func, env)
+        except AnalysisError:
+            fv = None
+        if isinstance(fv, Closure):
+            return self.call_function(fv.fn, args, fv.env)
+        if callable(fv) and not isinstance(fv, (Opaque, type)):
+            return fv(*args, **kw)
         raise AnalysisError(f"call of {fname} is not modelled")
 
 
@@ -853,13 +1008,27 @@ _BUILTINS = {
     "tuple": lambda x=(): tuple(x), "list": lambda x=(): list(x),
     "set": lambda x=(): set(x), "frozenset": lambda x=(): frozenset(x),
     "dict": lambda x=(): dict(x), "any": any, "all": all, "sum": sum,
-    "bin": bin,
+    "bin": bin, "next": next, "iter": iter,
+    "reduce": __import__("functools").reduce,
     "int": lambda x: x if isinstance(x, (int, Poly)) and not isinstance(
         x, bool) else int(x),
     "abs": abs, "min": min, "max": max, "str": str, "repr": repr,
     "isinstance": None, "sorted": lambda x: sorted(x), "bool": bool,
 }
 del _BUILTINS["isinstance"]
+
+
+def _is_generator_fn(fn):
+    def walk(n):
+        for ch in ast.iter_child_nodes(n):
+            if isinstance(ch, (ast.FunctionDef, ast.Lambda, ast.ClassDef)):
+                continue
+            if isinstance(ch, (ast.Yield, ast.YieldFrom)):
+                return True
+            if walk(ch):
+                return True
+        return False
+    return walk(fn)
 
 
 def explore(run, max_decisions=12, max_runs=512):
